@@ -101,17 +101,7 @@ containment("_messages:_unpack_bind_request", options=_PO,
 # hints: the k-th element starts at the sum of the lengths of the elements before it (flattened form of the nested rest_of)
 _OFF = lambda k: " + ".join("tlv_len(%s)" % _E(i) for i in range(k))
 _FLAT = ["%s == drop(%s, %s)" % (_E(k), _V, _OFF(k)) for k in range(2, 6)]
-# the reader's view after the k-th component is the ghost reader_view_k; the chain v_k == rest_of(v_{k-1}) says the components are
-# consecutive elements, each clause being a single step for the solver
-_CH = {"v%d" % k: "reader_view_%d" % k for k in range(1, 7)}
-containment("_messages:_unpack_search_request", options=_PO, witness=_CH, witness_sorts={w: "bytes" for w in _CH},
-            ensures=["result.message_id == message_id",
-                     "v1 == rest_of(%s)" % _V, "v2 == rest_of(v1)", "v3 == rest_of(v2)", "v4 == rest_of(v3)", "v5 == rest_of(v4)", "v6 == rest_of(v5)",
-                     "result.base_object == unutf8(content_of(%s))" % _V,
-                     "result.scope == tc(content_of(v1))", "result.deref_aliases == tc(content_of(v2))",
-                     "result.size_limit == tc(content_of(v3))", "result.time_limit == tc(content_of(v4))",
-                     # BOOLEAN: FALSE is the octet 00, TRUE any other octet (X.690 8.2.2)
-                     "implies(len(content_of(v5)) == 1, result.types_only == (content_of(v5)[0] != 0))"])
+
 
 
 # ExtendedRequest: requestName, then a loop that takes [1] as requestValue (last one wins) and skips everything else
@@ -183,3 +173,54 @@ containment("_messages:_unpack_extended_response", options=_PO, witness={"v1": "
                      "(result.value is None) == opt_none(v1, 11, True)",
                      "implies(result.value is not None, result.value == opt_val(v1, 11, empty()))"],
             loops=_opt_loop([("name", 10), ("value", 11)]), exit_hints=["v0 == v1"])
+
+
+# ---- lists of strings / octet strings read by `while reader: x = reader.read_octet_string(); xs.append(x)`
+def _list_loop(reader, lst, elem):
+    """Loop contract: after k iterations the reader is at the k-th suffix of the element stream r0 and lst[q] is the (decoded)
+    content of the q-th element; every suffix before the k-th was non-empty (so k is the number of elements when the loop ends)."""
+    return dict(snapshot={"r0": "%s._view" % reader},
+                invariant=["%s._view == nth_rest(r0, len(%s))" % (reader, lst),
+                           "forall(q, 0, len(%s), %s[q] == %s)" % (lst, lst, elem % "nth_rest(r0, q)"),
+                           "forall(q, 0, len(%s), len(nth_rest(r0, q)) > 0)" % lst],
+                snapshot_each={"k0": "len(%s)" % lst, "prev": lst},
+                body_hints=["lemma_nth_rest_step(r0, k0)", "len(%s) == k0 + 1" % lst, "forall(q, 0, k0, %s[q] == prev[q])" % lst,
+                            "%s[k0] == %s" % (lst, elem % "nth_rest(r0, k0)")],
+                decreases="len(%s._view)" % reader)
+
+
+def _list_post(lst, stream, elem):
+    return ["len(nth_rest(%s, len(%s))) == 0" % (stream, lst),
+            "forall(q, 0, len(%s), len(nth_rest(%s, q)) > 0)" % (lst, stream),
+            "forall(q, 0, len(%s), %s[q] == %s)" % (lst, lst, elem % ("nth_rest(%s, q)" % stream))]
+
+
+_STR_ELEM = "unutf8(content_of(%s))"
+_OCT_ELEM = "content_of(%s)"
+# SearchResultReference ::= SEQUENCE OF uri URI (the elements of the protocolOp itself)
+containment("_messages:_unpack_search_result_reference", options=_PO,
+            ensures=["result.message_id == message_id"] + _list_post("result.uris", _V, _STR_ELEM),
+            loops={0: _list_loop("reader", "uris", _STR_ELEM)})
+# PartialAttribute ::= SEQUENCE { type AttributeDescription, vals SET OF value AttributeValue }
+_PA_VALS = "content_of(rest_of(%s))" % _C
+containment("_messages:_unpack_partial_attribute", options=_PO,
+            ensures=[_PROGRESS, "reader._view == rest_of(%s)" % _V, "id_class(%s) == 0" % _V, "id_number(%s) == 16" % _V,
+                     "result.name == unutf8(content_of(%s))" % _C] + _list_post("result.values", _PA_VALS, _OCT_ELEM),
+            loops={0: _list_loop("value_reader", "values", _OCT_ELEM)}, exit_hints=["r0 == %s" % _PA_VALS])
+
+
+# SearchRequest (placed here: it uses the list helpers)
+# the reader's view after the k-th component is the ghost reader_view_k; the chain v_k == rest_of(v_{k-1}) says the components are
+# consecutive elements, each clause being a single step for the solver
+_CH = {"v%d" % k: "reader_view_%d" % k for k in range(1, 8)}
+containment("_messages:_unpack_search_request", options=_PO, witness=_CH, witness_sorts={w: "bytes" for w in _CH},
+            loops={0: _list_loop("attributes_reader", "attributes", _STR_ELEM)}, exit_hints=["r0 == content_of(v7)"],
+            ensures=["result.message_id == message_id",
+                     "v1 == rest_of(%s)" % _V, "v2 == rest_of(v1)", "v3 == rest_of(v2)", "v4 == rest_of(v3)", "v5 == rest_of(v4)", "v6 == rest_of(v5)",
+                     "result.base_object == unutf8(content_of(%s))" % _V,
+                     "result.scope == tc(content_of(v1))", "result.deref_aliases == tc(content_of(v2))",
+                     "result.size_limit == tc(content_of(v3))", "result.time_limit == tc(content_of(v4))",
+                     # BOOLEAN: FALSE is the octet 00, TRUE any other octet (X.690 8.2.2)
+                     "implies(len(content_of(v5)) == 1, result.types_only == (content_of(v5)[0] != 0))",
+                     # attributes AttributeSelection: the SEQUENCE that follows the filter (v7 = the view after the filter)
+                     "id_class(v7) == 0", "id_number(v7) == 16"] + _list_post("result.attributes", "content_of(v7)", _STR_ELEM))
